@@ -380,6 +380,36 @@ def unguarded_partial_lookups(ctx: Ctx) -> List[Tuple[Graph, Ev, str]]:
     return res
 
 
+def hashed_user_values(ctx: Ctx) -> List[Tuple[Graph, Ev]]:
+    """Membership tests `<value derived from a node result> in <dict / set>`: the value is hashed, and a node may
+    return an unhashable one (list, dict): a TypeError raised by engine code inside a task."""
+    res = []
+    seen = set()
+    for fid, g in ctx.run_graphs().items():
+        for ev in g.events('member'):
+            node = ev.node
+            if id(node) in seen or len(node.ops) != 1:
+                continue
+            env = FuncEnv.of(ctx.p, ev.inst.unit)
+            ct = env.type_of(node.comparators[0])
+            if ct[0] == 'seq' and not isinstance(_container_expr(ctx, node.comparators[0], ev.inst), (ast.Set, ast.SetComp)):
+                hint = unparse(_container_expr(ctx, node.comparators[0], ev.inst))
+                if not hint.startswith(('set(', 'frozenset(')):
+                    continue            # list / tuple membership compares, it does not hash
+            if ct[0] in ('ext', 'extsym') and 'str' in str(ct):
+                continue
+            if not any(_tainted(ctx, sym.term(ctx.p, e, i)) for e, i in resolve_all(ctx.p, node.left, ev.inst)):
+                continue
+            seen.add(id(node))
+            res.append((g, ev))
+    return res
+
+
+def _container_expr(ctx: Ctx, expr: ast.AST, inst) -> ast.AST:
+    e, i = sym.resolve_value(ctx.p, expr, inst)
+    return e
+
+
 def _inside_try_catching(root: ast.AST, node: ast.AST, names) -> bool:
     from ..guards import parents
     pm = parents(root)
